@@ -6,6 +6,8 @@ CONSTANTS
   Sorted <- MCSorted
   FilePool <- FileSettings
   NFiles = 2
+  CmtPool <- CmtPoolSim
+  MaxMeta = 2
   HintNames = {"d", "d1", ".", "q", "rand", "go", "pkg_d"}
   MaxCells = 5
   MaxOps = 14
